@@ -136,10 +136,10 @@ func specDepth(spaces int, row string) int {
 //@   ensures fresh [C12]: result0 != nil ==> fresh(result0) && result0.hierarchy >= 1
 //@   ensures blank [C02,C15]: allSpace(row) ==> result1 == ErrBlankLine && p.isSharpRoot == old(p.isSharpRoot) && p.spaces == old(p.spaces) && p.sep == old(p.sep)
 //@   ensures nonblank [C02,C15]: !allSpace(row) ==> result1 != ErrBlankLine
-//@   ensures heading [C01,C15]: !allSpace(row) && len(row) > 0 && row[0] == '#' ==> p.isSharpRoot && p.spaces == old(p.spaces) && p.sep == old(p.sep) && (specHeadingText(row) == "" ==> result1 == ErrEmptyText) && (specHeadingText(row) != "" ==> result1 == nil && result0.hierarchy == 1 && result0.text == specHeadingText(row))
+//@   ensures heading [C01,C04,C15]: !allSpace(row) && len(row) > 0 && row[0] == '#' ==> p.isSharpRoot && p.spaces == old(p.spaces) && p.sep == old(p.sep) && (specHeadingText(row) == "" ==> result1 == ErrEmptyText) && (specHeadingText(row) != "" ==> result1 == nil && result0.hierarchy == 1 && result0.text == specHeadingText(row))
 //@   ensures reject [C02]: !allSpace(row) && len(row) > 0 && row[0] != '#' && !specItemShape(old(p.sep), old(p.spaces), row) ==> result1 == ErrIncorrectFormat
 //@   ensures empty [C02]: !allSpace(row) && len(row) > 0 && row[0] != '#' && specItemShape(old(p.sep), old(p.spaces), row) && specItemText(row) == "" ==> result1 == ErrEmptyText
-//@   ensures item [C01,C02,C15]: !allSpace(row) && len(row) > 0 && row[0] != '#' && specItemShape(old(p.sep), old(p.spaces), row) && specItemText(row) != "" ==> result1 == nil && result0.text == specItemText(row) && result0.hierarchy == specDepth(old(p.spaces), row) + 1 + (p.isSharpRoot ? 1 : 0) && p.isSharpRoot == old(p.isSharpRoot) && p.spaces == specUnit(old(p.spaces), row) && p.sep == (specIndent(row) == 0 ? "" : (old(p.sep) != "" ? old(p.sep) : row[0:1]))
+//@   ensures item [C01,C02,C04,C15]: !allSpace(row) && len(row) > 0 && row[0] != '#' && specItemShape(old(p.sep), old(p.spaces), row) && specItemText(row) != "" ==> result1 == nil && result0.text == specItemText(row) && result0.hierarchy == specDepth(old(p.spaces), row) + 1 + (p.isSharpRoot ? 1 : 0) && p.isSharpRoot == old(p.isSharpRoot) && p.spaces == specUnit(old(p.spaces), row) && p.sep == (specIndent(row) == 0 ? "" : (old(p.sep) != "" ? old(p.sep) : row[0:1]))
 
 //@ func markdown.NewParser
 //@   ensures fresh: fresh(result) && parserOK(result) && !result.isSharpRoot && result.spaces == 0 && result.sep == ""
